@@ -174,7 +174,69 @@ theorem C06_read_normal_form (ps qs : List Path) (fs : Fields)
   simp only [projectMask]
   rw [← project_minimal fs ps hps.1, ← project_minimal fs qs hqs.1, project_congr fs _ _ h]
 
+/-! ## What the validating option refuses -/
+
+/-- **C06_path_stops_below_non_message.**  For every schema: a path that reaches — through singular
+message fields — a field that is NOT a singular message (a scalar, a repeated scalar, a repeated
+message, a map) and then goes on is not a field mask path, WHATEVER the following segments are called
+(an arbitrary name, the `key` / `value` of a map entry, a field of the repeated element or of the
+map's message value, an index); so is a path whose next segment names no field.  A path that stops at
+any field reached that way is one. -/
+theorem C06_path_stops_below_non_message (S : Schema) (ty t : Nat) (pre : Path) (seg : Name)
+    (hl : Leads S ty pre t) :
+    (∀ fd next rest, S.field t seg = some fd → (∀ u, fd.kind ≠ .message u) →
+        validPath S ty (pre ++ seg :: next :: rest) = false)
+    ∧ (∀ rest, S.field t seg = none → validPath S ty (pre ++ seg :: rest) = false)
+    ∧ (∀ fd, S.field t seg = some fd → validPath S ty (pre ++ [seg]) = true) := by
+  refine ⟨fun fd next rest hf hk => ?_, fun rest hf => ?_, fun fd hf => ?_⟩
+  · rw [validPath_leads hl]
+    cases hkk : fd.kind with
+    | message u => exact absurd hkk (hk u)
+    | _ => simp only [validStep, hf, hkk]
+  · rw [validPath_leads hl]; simp only [validStep, hf]
+  · rw [validPath_leads hl]; simp only [validStep, hf]
+    cases fd.kind <;> rfl
+
+/-- **C06_read_paths_refuses_continuation.**  `WithReadPaths` ("panics if paths aren't part of m")
+and `ResponseFilter.Validate` agree on the corrupted masks the property names: if ANY path of the
+option continues below a scalar, repeated or map field — whatever the continuation is called — or
+names an unknown field, then every option list containing that option panics when it is built, at
+any position, whatever follows it (no read is made with the mask), and `Validate` reports the same
+mask invalid. -/
+theorem C06_read_paths_refuses_continuation (S : Schema) (ty t : Nat) (pre : Path) (seg : Name)
+    (tail : Path) (hl : Leads S ty pre t)
+    (hbad : (∃ fd next rest, tail = next :: rest ∧ S.field t seg = some fd ∧ ∀ u, fd.kind ≠ .message u)
+      ∨ S.field t seg = none)
+    (ps : List Path) (hp : pre ++ seg :: tail ∈ ps) :
+    validate S ty (some ps) = false
+    ∧ ∀ (opts : List ReadOpt) (fs : Fields), ReadOpt.readPaths ps ∈ opts →
+        computeReadConfig S ty opts = none ∧ readWith S ty opts fs = none := by
+  have hv : validPath S ty (pre ++ seg :: tail) = false := by
+    have h := C06_path_stops_below_non_message S ty t pre seg hl
+    rcases hbad with ⟨fd, next, rest, rfl, hf, hk⟩ | hf
+    · exact h.1 fd next rest hf hk
+    · exact h.2.1 tail hf
+  have hi : isValid S ty ps = false := by
+    unfold isValid
+    rw [List.all_eq_false]
+    exact ⟨_, hp, by simp [hv]⟩
+  refine ⟨by simpa [validate] using hi, fun opts fs hm => ?_⟩
+  have hc : computeReadConfig S ty opts = none := (C06_options_panic_iff S ty opts).2 ⟨ps, hm, hi⟩
+  exact ⟨hc, by simp [readWith, hc]⟩
+
 /-! ## Non-vacuity -/
+
+/-- `f` leads from type 0 to type 1; the map `m` and the repeated `r` lead nowhere. -/
+example : Leads exSchema 0 ["f"] 1 := .step (fd := ⟨"f", .message 1, 0⟩) (by decide) rfl .here
+/-- The entry-field names of a map are refused like any other continuation, alone or after a valid path,
+before or after other options. -/
+example : readWith exSchema 0 [.readPaths [["m", "value"]]] exMsg = none
+    ∧ readWith exSchema 0 [.readPaths [["g"], ["m", "key"]], .readMask none] exMsg = none
+    ∧ readWith exSchema 0 [.readMask (some [["g"]]), .readPaths [["m", "value", "c"]]] exMsg = none
+    ∧ validate exSchema 0 (some [["m", "value"]]) = false := by decide
+/-- …while the map itself, and a field below the singular message, are accepted. -/
+example : readWith exSchema 0 [.readPaths [["m"], ["f", "d"]]] exMsg
+    = some (.cons "f" (.msg (.cons "d" (.sc "i2") .nil)) .nil) := by decide
 
 /-- mask, then nil: everything; nil, then mask: the mask; two masks: the last. -/
 example : readWith exSchema 0 [.readMask (some [["g"]]), .updatesOnly true, .readMask none, .empty] exMsg = some exMsg := by decide
